@@ -1073,6 +1073,15 @@ func runC12(w *World, r *Report) {
 		})
 	}
 
+	// the bytes handed to the verifier are that call's own: a statement assembled in a buffer another request can take
+	// over is verified as whatever the other request wrote into it
+	r.rule("statement-bytes-are-private", "createGossiperMessageToSign and verifyGossipers use no package-level mutable state (no pooled or shared scratch buffer holds the bytes that are hashed and verified)", 2)
+	for _, spec := range [][3]string{{"gossip", "", "createGossiperMessageToSign"}, {"gossip", "gossiper", "verifyGossipers"}} {
+		if fn := w.Func(spec[0], spec[1], spec[2]); fn != nil {
+			statelessObligation(w, r, "statement-bytes-are-private", fn)
+		}
+	}
+
 	// "peer P is informed" is looked up by the address a connection is registered under: that address must be the one the
 	// registering node proved to own, and a registration touches no other node's entry
 	r.rule("peer-entry-keyed-by-verified-address", "every peer-table write reachable from Announce / Discover uses as key the PublicAddress of the request whose signature was verified (a registration neither adds nor removes an entry under another address)", 2)
